@@ -10,7 +10,7 @@ EXTENDS ModMC, Json
 
 HistStr(h) == FoldLeft(LAMBDA a, c : a \o c, "", h)
 B(b) == IF b THEN 1 ELSE 0
-OptJ(o) == [k |-> o.k, a |-> o.a, v |-> o.v, i |-> o.i]
+OptJ(o) == [k |-> o.k, a |-> o.a, v |-> o.v, i |-> o.i, f |-> o.f]
 KidJ(ch) == [lids |-> [i \in 1..Len(ch.L) |-> IF ch.L[i].ok THEN ch.L[i].id ELSE "X"],
              hseq |-> [j \in 1..Len(ch.H) |-> IF ch.H[j].e THEN "E" ELSE ch.H[j].id],
              good |-> [i \in 1..Len(ch.L) |-> B(ch.L[i].ok /\ ch.L[i].mt = ch.L[i].wc)],
@@ -19,7 +19,7 @@ Scn == [img |-> [n |-> img.n, hist |-> HistStr(img.hist), shape |-> img.shape, m
                  data |-> B(img.data), refs |-> B(img.refs), ext |-> 0, alg |-> img.alg, ut |-> B(img.ut)],
         place |-> place, src |-> src,
         prog |-> [j \in 1..Len(prog) |-> OptJ(prog[j])],
-        noop |-> B(NoopProg),
+        noop |-> B(NoopProg), gigo |-> B(Gigo),
         expect |-> [err |-> B(err # ""), why |-> err, unchanged |-> B(Unchanged), resolves |-> B(Resolves),
                     kids |-> IF err = "" THEN [c \in 1..Len(kids) |-> KidJ(kids[c])] ELSE <<>>,
                     entdata |-> IF err = "" /\ img.shape = "index" THEN [c \in 1..Len(kids) |-> topm.ents[c].data] ELSE <<>>]]
